@@ -445,7 +445,13 @@ func skeleton(r *hx.Rand, kind int, udpPort *int) []step {
 
 // mutateReq applies one grammar-level mutation to a request.
 func mutateReq(r *hx.Rand, q *sreq, udpPort *int) string {
-	switch r.Intn(25) {
+	switch r.Intn(26) {
+	case 25:
+		// another delivery / lower protocol than the rest of the session
+		*udpPort += 2
+		q.transport = []string{hx.Pick(r, "RTP/AVP;multicast", fmt.Sprintf("RTP/AVP;unicast;client_port=%d-%d", *udpPort, *udpPort+1),
+			"RTP/AVP/TCP;unicast;interleaved=6-7", "RTP/AVP;multicast;mode=record")}
+		return "delivery-flip"
 	case 22, 23:
 		// interleaved channel pairs: not consecutive, reversed, in use, huge
 		v := "RTP/AVP/TCP;unicast;interleaved=" + hx.Pick(r, "4-6", "1-0", "0-1", "1-2", "2-3", "3-4", "0-0", "2-4", "255-256", "2147483646-2147483647")
@@ -535,8 +541,72 @@ func mutateReq(r *hx.Rand, q *sreq, udpPort *int) string {
 	}
 }
 
+// mixScenario: ONE session whose two SETUPs disagree in delivery / lower protocol (multicast, unicast
+// UDP, TCP) in every order, optionally while a legitimate multicast reader is playing on another
+// connection. The second SETUP must be refused (400, connection closed) and must leave the stream's
+// multicast bookkeeping alone.
+func mixScenario(r *hx.Rand, udpPort *int, idx int) (scenario, []string) {
+	tr := func(kind int) string {
+		switch kind {
+		case 0:
+			return "RTP/AVP;multicast"
+		case 1:
+			*udpPort += 2
+			return fmt.Sprintf("RTP/AVP;unicast;client_port=%d-%d", *udpPort, *udpPort+1)
+		default:
+			return "RTP/AVP/TCP;unicast;interleaved=" + hx.Pick(r, "0-1", "2-3", "4-5")
+		}
+	}
+	names := []string{"mcast", "udp", "tcp"}
+	pairs := [][2]int{{0, 1}, {1, 0}, {0, 2}, {2, 0}, {1, 2}, {2, 1}}
+	p := pairs[r.Intn(len(pairs))]
+	legit := r.Intn(2) == 0
+	var sc scenario
+	sc.carriers = []int{carPlain}
+	var steps []step
+	own := func(q sreq) sreq { q.sess = 2; return q }
+	if legit {
+		sc.carriers = append(sc.carriers, carPlain)
+		a := reqPlain("SETUP", "/s", "/trackID=0")
+		a.transport = []string{"RTP/AVP;multicast"}
+		steps = append(steps, step{conn: 1, req: a}, step{conn: 1, req: own(reqPlain("PLAY", "/s", ""))})
+	}
+	t0, t1 := "/trackID=0", "/trackID=1"
+	if r.Bool() {
+		t0, t1 = t1, t0
+	}
+	a := reqPlain("SETUP", "/s", t0)
+	a.transport = []string{tr(p[0])}
+	b := own(reqPlain("SETUP", "/s", t1))
+	b.transport = []string{tr(p[1])}
+	steps = append(steps, step{req: a}, step{req: b})
+	switch r.Intn(4) {
+	case 0:
+	case 1:
+		steps = append(steps, step{req: own(reqPlain("PLAY", "/s", ""))})
+	case 2:
+		steps = append(steps, step{req: own(reqPlain("PLAY", "/s", ""))}, step{req: own(reqPlain("TEARDOWN", "/s", ""))})
+	default:
+		steps = append(steps, step{req: own(reqPlain("TEARDOWN", "/s", ""))})
+	}
+	if legit && r.Bool() {
+		steps = append(steps, step{conn: 1, req: own(reqPlain("PAUSE", "/s", ""))}, step{conn: 1, req: own(reqPlain("TEARDOWN", "/s", ""))})
+	}
+	tag := "mix-" + names[p[0]] + "-" + names[p[1]]
+	tags := []string{tag}
+	if legit {
+		tags = append(tags, "legit-mcast-reader")
+	}
+	sc.steps = steps
+	sc.name = fmt.Sprintf("g%d[%s]", idx, strings.Join(tags, ","))
+	return sc, tags
+}
+
 // genScenario derives a scenario from valid skeletons by grammar-level mutation.
 func genScenario(r *hx.Rand, cfg childCfg, udpPort *int, idx int) (scenario, []string) {
+	if cfg.Mcast && strings.Contains(cfg.Handlers, "S") && r.Intn(5) == 0 {
+		return mixScenario(r, udpPort, idx)
+	}
 	var sc scenario
 	var tags []string
 	nconn := 1
